@@ -17,6 +17,12 @@ CHECKS = {
   text="Streams of 1-3 (thorough: 4) NAL units with every size 1..20 (26), every start-code length pattern in {3,4}^n and three content classes (filler, interior zeros, interior 00 00 03), plus all type sequences of length <= 4 over the AVC and HEVC type alphabets, are pushed through ExtractNalusFromByteStream, ConvertByteStreamToNaluSample, ConvertSampleToByteStream, GetNalusFromSample, FindNaluTypes[UpToFirstVideo], ContainsNaluType, IsIDR/IsRAP, HasParameterSets, GetParameterSets[FromByteStream], ExtractNalusOfTypeFromByteStream and GetFirstAVCVideoNALUFromByteStream; every result must equal what the generating unit list implies.",
   note="Well-formed streams only (units non-empty, emulation-free, last byte non-zero, NAL type 0 excluded). Sizes are bounded; the word-at-a-time scanner is exercised at every alignment modulo 8 and every tail length.",
   design="3 C14"),
+ "C16": dict(
+  engine="E1-style explicit-state search over byte strings (isolated workers)",
+  technique="explicit-state search: states = byte strings reached from ~1000 valid elementary-stream seeds by every single deviation (bit, byte, word, truncation, inserted runs, spliced huge Exp-Golomb code at every bit offset) plus all short strings; every state fed to every codec-helper entry point in RLIMIT_AS-isolated workers; oracle per call: recovered panic, time, allocated bytes",
+  text="Seeds: every single-deviation SPS/PPS/slice NAL unit of the ref/h264syn and ref/h265syn serializers (618), captured and constructed SEI NAL units and payloads (~600), length-prefixed samples and Annex B streams of 1-3 units, avcC/hvcC/av1C records, ADTS headers and AudioSpecificConfigs. Deviations: all bit flips, 7 boundary values per byte, 14 boundary 32-bit words + remaining-length family and 6 boundary 16-bit words at every offset, every truncation, 0xff/0x00 runs inserted at every offset, ue(255..2^32-2) spliced at every RBSP bit offset; all byte strings of length <= 2 (thorough: <= 3) and alphabet strings up to length 4 (5). Each of ~3 million (thorough: ~25 million) inputs goes to all 79 targets (NAL walkers, Annex B scanners, SPS/PPS/slice parsers with parameter-set maps that resolve every id, SEI extraction and every SEI decoder with String/Payload/Size and re-write, ADTS, AudioSpecificConfig, AVC/HEVC/AV1 configuration records with re-encode).",
+  note="Exhaustive over ring 1 of the seeds and the short-string bound, not over all byte strings. Budgets: 2 s and 256 KiB + 1024 x len allocated bytes per call (re-measured 3 times, minimum taken, because the runtime publishes allocation statistics in batches). cmd/mp4ff-nallister and cmd/mp4ff-pslister are not driven.",
+  design="3 C16"),
  "C15": dict(
   engine="E3 product enumerator",
   technique="exhaustive k-deviation enumeration of SPS/PPS/slice-header field vectors serialised by independent reference writers of the H.264/H.265 syntax (cross-checked bit-exactly against captured parameter sets) and parsed by the library; every coded field, cropping formula, id resolution, header size, configuration record and codec string compared",
